@@ -334,6 +334,11 @@ def writes_in(fn) -> List[Write]:
         elif isinstance(st, (ast.Global, ast.Nonlocal)):
             for n in st.names:
                 out.append(Write("global" if isinstance(st, ast.Global) else "nonlocal", ast.Name(id=n, ctx=ast.Store()), st, st))
+        if isinstance(st, ast.AugAssign) and isinstance(st.target, ast.Name) and isinstance(st.op, (ast.Add, ast.BitOr)) and not isinstance(st.value, (ast.Constant, ast.JoinedStr, ast.BinOp, ast.UnaryOp)) \
+                and not (isinstance(st.value, ast.Call) and isinstance(st.value.func, ast.Name) and st.value.func.id in ("len", "int", "str", "sum", "float", "abs", "min", "max", "format")):
+            # `x += <sequence>` on a list / set / dict extends the object x names IN PLACE (an alias of a caller's or the
+            # instance's list is changed); on numbers and strings it merely re-binds - the provenance rules sort it out
+            out.append(Write("call:__iadd__", ast.copy_location(ast.Name(id=st.target.id, ctx=ast.Load()), st.target), st, st))
         flat = []
         for t in targets:
             if isinstance(t, (ast.Tuple, ast.List)):
